@@ -128,7 +128,7 @@ class PathState:
 class Exec:
     def __init__(self, f, call_handler, havoc=None, word_args=(), unroll=False, arg_consts=None, int_cells=None, auto=False,
                  split_max=8, starts=None, pre_conds=(), callee_writes=None, word_phis=None, fresh_per_entry=False, exit_eq=None, unrotate=False,
-                 head_consts=None, congr=None):
+                 head_consts=None, congr=None, cell_alias=None):
         """call_handler(ex, path, inst, callee, argvalues) -> result value or None
         havoc(ex, path, header) is called when a fresh iteration starts at a loop header"""
         self.f = f
@@ -141,6 +141,7 @@ class Exec:
         self.word_args = set(word_args)
         self.unroll = unroll
         self.arg_consts = dict(arg_consts or {})
+        self.cell_alias = dict(cell_alias or {})   # integer cell (obj, off, n) -> cell whose unknown head value it shares (an inferred invariant: both hold the same value at every loop entry and back edge)
         self.int_cells = int_cells      # predicate (obj, off, nbytes) -> treat the cell as an integer (linear form), not as data bits
         self.auto = auto                # loops whose header test is decided are followed; others get one generic iteration
         self.split_max = split_max
@@ -669,6 +670,19 @@ class Exec:
                                 work.append((b, pred, q2, "fork"))
                         forked = True
                         break
+                if I.op in ("zext", "sext") and self.auto and I.ops[0][0] == "i":
+                    # an undecided comparison of lengths used as a number (`n / 32 + (n % 32 != 0)`): one path per outcome
+                    c_ = p.env.get(I.ops[0])
+                    if isinstance(c_, tuple) and c_ and c_[0] == "icmp" and isinstance(c_[2], Lf) and isinstance(c_[3], Lf) and self._decide(p, c_) is None:
+                        for truth in (True, False):
+                            q = p.clone()
+                            sp = self._assume(q, c_, truth)
+                            for q2 in self._split(q, sp):
+                                q2.env[("i", I.id)] = Lf.c((1 if I.op == "zext" else -1) if truth else 0)
+                                q2.resume = (b, pos_ + 1)
+                                work.append((b, pred, q2, "fork"))
+                        forked = True
+                        break
                 if I.op == "phi":
                     if pred == "fresh":
                         continue
@@ -933,7 +947,8 @@ class Exec:
                         for k in range(n):
                             p.mem[(obj, off + k)] = gf2.sym_word(("hv", L["header"], obj, off + k), 8)
                         for key in [kk for kk in p.lfmem if kk[0] == obj and kk[1] < off + n and off < kk[1] + kk[2]]:
-                            p.lfmem[key] = Lf.s(("hvi", L["header"], obj, key[1]))
+                            rep = self.cell_alias.get(key, key)
+                            p.lfmem[key] = Lf.s(("hvi", L["header"], rep[0], rep[1]))
                     else:
                         p.objgen[obj] = p.objgen.get(obj, 0) + 1 if ("gen", L["header"], obj) not in p.objgen else p.objgen[obj]
                         p.objgen[("gen", L["header"], obj)] = 1
@@ -1483,3 +1498,26 @@ def _sext(v, bits):
     if bits == 64 and v >> 63:
         return v - (1 << 64)
     return v
+
+
+def infer_cell_aliases(ps, header):
+    """integer cells that hold the same value whenever the loop head is reached - at every entry and at every back edge: an inductive
+    invariant (a state field and its cached local copy).  -> {cell: representative cell}"""
+    at = [p for p in ps if p.end[0] in ("loop-entry", "backedge") and p.end[1] == header]
+    if not at or not any(p.end[0] == "backedge" for p in at) or not any(p.end[0] == "loop-entry" for p in at):
+        return {}
+    keys = None
+    for p in at:
+        ks = {k for k, v in p.lfmem.items() if v is not None}
+        keys = ks if keys is None else (keys & ks)
+    keys = sorted(keys or (), key=repr)
+    alias = {}
+    for i, a in enumerate(keys):
+        if a in alias:
+            continue
+        for b in keys[i + 1:]:
+            if b in alias or a[2] != b[2]:
+                continue
+            if all(p.lfmem[a] == p.lfmem[b] for p in at):
+                alias[b] = a
+    return alias
